@@ -12,7 +12,10 @@ mod value_store;
 use self::index::IndexHeader;
 use crate::bases::*;
 use crate::common::{CheckInfo, DirectoryPackHeader, Pack, PackHeader, PackKind};
+#[cfg(not(jubako_verif_shuttle))]
 use std::sync::{Arc, RwLock};
+#[cfg(jubako_verif_shuttle)]
+use crate::verif::sync::{Arc, RwLock};
 use uuid::Uuid;
 
 pub use self::entry_store::EntryStore;
